@@ -26,6 +26,9 @@ pub struct Case {
     pub slack: u8,
     pub chunks: Vec<u16>,
     pub sets: bool,
+    /// non-empty: mixed use of one reader - entry true = read_record_set(), false = next(), cycled
+    #[serde(default)]
+    pub mix: Vec<bool>,
 }
 
 pub struct NoAlloc;
@@ -34,8 +37,8 @@ impl Prop for NoAlloc {
     type Case = Case;
     fn strategy(&self, _tier: Tier) -> BoxedStrategy<Case> {
         boxed(
-            (gen::format(), 100u16..1500, 0u8..40, prop_oneof![2 => Just(0u8), 2 => 1u8..4, 1 => 4u8..20], any::<bool>(), 1u8..6, 0u8..30, gen::chunks(), any::<bool>()).prop_map(
-                |(format, n_records, seq_len, jitter, crlf, factor, slack, chunks, sets)| Case { format, n_records, seq_len, jitter, crlf, factor, slack, chunks, sets },
+            (gen::format(), 100u16..1500, 0u8..40, prop_oneof![2 => Just(0u8), 2 => 1u8..4, 1 => 4u8..20], any::<bool>(), 1u8..6, 0u8..30, gen::chunks(), any::<bool>(), prop_oneof![2 => Just(vec![]), 1 => proptest::collection::vec(any::<bool>(), 2..7)]).prop_map(
+                |(format, n_records, seq_len, jitter, crlf, factor, slack, chunks, sets, mix)| Case { format, n_records, seq_len, jitter, crlf, factor, slack, chunks, sets, mix },
             ),
         )
     }
@@ -54,204 +57,211 @@ impl Prop for NoAlloc {
         let mut measured_calls = 0u64;
         let mut skipped_nondominated = 0u64;
         let mut sink = 0usize;
-        match (c.format, c.sets) {
-            (Format::Fasta, false) => {
-                use fasta::Record;
-                let mut rdr = fasta::Reader::with_capacity(src, cap).set_policy(pol);
-                let mut max_lines = 0usize;
-                for i in 0..m.recs.len() {
-                    let (res, allocs, bytes) = measured(|| match rdr.next() {
-                        Some(Ok(r)) => {
-                            let mut s = r.head().len() + r.seq().len();
-                            let mut n = 0usize;
-                            for l in r.seq_lines() {
-                                s += l.len();
-                                n += 1;
-                            }
-                            Some((s, n))
-                        }
-                        _ => None,
-                    });
-                    let (s, lines) = match res {
-                        Some(x) => x,
-                        None => fail!(format!("{}/next/read-failed", f), "record {} could not be read", i),
-                    };
-                    sink += s;
-                    let dominated = lines <= max_lines;
-                    max_lines = max_lines.max(lines);
-                    if warm(i) {
-                        if dominated {
-                            measured_calls += 1;
-                            ensure!(
-                                allocs == 0,
-                                format!("{}/next/allocation-in-steady-state", f),
-                                "next() call {} (record with {} lines, no larger than earlier ones; capacity {}) performed {} heap allocation(s) ({} bytes)",
-                                i,
-                                lines,
-                                cap,
-                                allocs,
-                                bytes
-                            );
-                        } else {
-                            skipped_nondominated += 1;
-                        }
-                    }
-                }
+        let mixed = !c.mix.is_empty() && c.mix.iter().any(|b| *b) && c.mix.iter().any(|b| !*b);
+        let use_set = |call: usize| -> bool {
+            if mixed {
+                c.mix[call % c.mix.len()]
+            } else {
+                c.sets
             }
-            (Format::Fastq, false) => {
-                use fastq::Record;
-                let mut rdr = fastq::Reader::with_capacity(src, cap).set_policy(pol);
-                for i in 0..m.recs.len() {
-                    let (res, allocs, bytes) = measured(|| match rdr.next() {
-                        Some(Ok(r)) => Some(r.head().len() + r.seq().len() + r.qual().len() + r.id_bytes().len()),
-                        _ => None,
-                    });
-                    match res {
-                        Some(s) => sink += s,
-                        None => fail!(format!("{}/next/read-failed", f), "record {} could not be read", i),
-                    }
-                    if warm(i) {
-                        measured_calls += 1;
-                        ensure!(
-                            allocs == 0,
-                            format!("{}/next/allocation-in-steady-state", f),
-                            "next() call {} (capacity {}) performed {} heap allocation(s) ({} bytes)",
-                            i,
-                            cap,
-                            allocs,
-                            bytes
-                        );
-                    }
-                }
-            }
-            (Format::Fasta, true) => {
+        };
+        let mode_name = if mixed { "mixed" } else if c.sets { "sets" } else { "next" };
+        let total = m.recs.len();
+        match c.format {
+            Format::Fasta => {
                 use fasta::Record;
                 let mut rdr = fasta::Reader::with_capacity(src, cap).set_policy(pol);
                 let mut set = fasta::RecordSet::default();
+                let mut max_lines = 0usize;
                 let mut slot_max: Vec<usize> = Vec::new();
                 let mut lines_now: Vec<usize> = Vec::with_capacity(4096);
                 let mut max_recs = 0usize;
-                let mut i = 0usize; // records delivered
                 let mut set_cap: Option<usize> = None;
-                loop {
-                    lines_now.clear();
-                    let ln = &mut lines_now;
-                    let (res, allocs, bytes) = measured(|| match rdr.read_record_set(&mut set) {
-                        Some(Ok(())) => {
-                            let mut s = 0usize;
-                            for r in &set {
-                                s += r.head().len() + r.seq().len();
-                                let mut n = 0;
+                let mut i = 0usize;
+                let mut call = 0usize;
+                while i < total {
+                    if use_set(call) {
+                        lines_now.clear();
+                        let ln = &mut lines_now;
+                        let (res, allocs, bytes) = measured(|| match rdr.read_record_set(&mut set) {
+                            Some(Ok(())) => {
+                                let mut s = 0usize;
+                                for r in &set {
+                                    s += r.head().len() + r.seq().len();
+                                    let mut n = 0;
+                                    for l in r.seq_lines() {
+                                        s += l.len();
+                                        n += 1;
+                                    }
+                                    if ln.len() < ln.capacity() {
+                                        ln.push(n);
+                                    }
+                                }
+                                Some(s)
+                            }
+                            _ => None,
+                        });
+                        let s = match res {
+                            Some(s) => s,
+                            None => fail!(format!("{}/{}/read-failed", f, mode_name), "set read failed at record {}", i),
+                        };
+                        sink += s;
+                        let k = set.len();
+                        ensure!(lines_now.len() == k && k >= 1, "harness/c18", "harness: line bookkeeping overflow or empty batch");
+                        let mut dominated = k <= max_recs;
+                        for (j, n) in lines_now.iter().enumerate() {
+                            if j >= slot_max.len() {
+                                slot_max.push(0);
+                                dominated = false;
+                            }
+                            if *n > slot_max[j] {
+                                dominated = false;
+                                slot_max[j] = *n;
+                            }
+                        }
+                        max_recs = max_recs.max(k);
+                        if warm(i) {
+                            if dominated {
+                                measured_calls += 1;
+                                ensure!(
+                                    allocs == 0,
+                                    format!("{}/{}/allocation-in-steady-state", f, mode_name),
+                                    "read_record_set() into a reused set ({} records starting at record {}, no larger than earlier batches; capacity {}) performed {} heap allocation(s) ({} bytes)",
+                                    k,
+                                    i,
+                                    cap,
+                                    allocs,
+                                    bytes
+                                );
+                                if let Some(sc) = set_cap {
+                                    ensure!(set.buf_capacity() == sc, format!("{}/{}/set-buffer-capacity-changed", f, mode_name), "record set buffer capacity changed from {} to {}", sc, set.buf_capacity());
+                                }
+                            } else {
+                                skipped_nondominated += 1;
+                            }
+                            set_cap = Some(set.buf_capacity());
+                        }
+                        i += k;
+                    } else {
+                        let (res, allocs, bytes) = measured(|| match rdr.next() {
+                            Some(Ok(r)) => {
+                                let mut s = r.head().len() + r.seq().len();
+                                let mut n = 0usize;
                                 for l in r.seq_lines() {
                                     s += l.len();
                                     n += 1;
                                 }
-                                if ln.len() < ln.capacity() {
-                                    ln.push(n);
-                                }
+                                Some((s, n))
                             }
-                            Some(Ok(s))
-                        }
-                        Some(Err(_)) => Some(Err(())),
-                        None => None,
-                    });
-                    let s = match res {
-                        None => break,
-                        Some(Err(())) => fail!(format!("{}/sets/read-failed", f), "set read failed at record {}", i),
-                        Some(Ok(s)) => s,
-                    };
-                    sink += s;
-                    let k = set.len();
-                    ensure!(lines_now.len() == k, "harness/c18", "harness: line bookkeeping overflow");
-                    let mut dominated = k <= max_recs;
-                    for (j, n) in lines_now.iter().enumerate() {
-                        if j >= slot_max.len() {
-                            slot_max.push(0);
-                            dominated = false;
-                        }
-                        if *n > slot_max[j] {
-                            dominated = false;
-                            slot_max[j] = *n;
-                        }
-                    }
-                    max_recs = max_recs.max(k);
-                    if i < m.recs.len() && warm(i) {
-                        if dominated {
-                            measured_calls += 1;
-                            ensure!(
-                                allocs == 0,
-                                format!("{}/sets/allocation-in-steady-state", f),
-                                "read_record_set() into a reused set ({} records starting at record {}, no larger than earlier batches; capacity {}) performed {} heap allocation(s) ({} bytes)",
-                                k,
-                                i,
-                                cap,
-                                allocs,
-                                bytes
-                            );
-                            if let Some(sc) = set_cap {
-                                ensure!(set.buf_capacity() == sc, format!("{}/sets/set-buffer-capacity-changed", f), "record set buffer capacity changed from {} to {}", sc, set.buf_capacity());
+                            _ => None,
+                        });
+                        let (s, lines) = match res {
+                            Some(x) => x,
+                            None => fail!(format!("{}/{}/read-failed", f, mode_name), "record {} could not be read", i),
+                        };
+                        sink += s;
+                        let dominated = lines <= max_lines;
+                        max_lines = max_lines.max(lines);
+                        if warm(i) {
+                            if dominated {
+                                measured_calls += 1;
+                                ensure!(
+                                    allocs == 0,
+                                    format!("{}/{}/allocation-in-steady-state", f, mode_name),
+                                    "next() call for record {} ({} lines, no larger than earlier ones; capacity {}) performed {} heap allocation(s) ({} bytes)",
+                                    i,
+                                    lines,
+                                    cap,
+                                    allocs,
+                                    bytes
+                                );
+                            } else {
+                                skipped_nondominated += 1;
                             }
-                        } else {
-                            skipped_nondominated += 1;
                         }
-                        set_cap = Some(set.buf_capacity());
+                        i += 1;
                     }
-                    i += k;
+                    call += 1;
                 }
-                ensure!(i == m.recs.len(), format!("{}/sets/record-count", f), "{} records read, {} expected", i, m.recs.len());
+                ensure!(i == total, format!("{}/{}/record-count", f, mode_name), "{} records read, {} expected", i, total);
             }
-            (Format::Fastq, true) => {
+            Format::Fastq => {
                 use fastq::Record;
                 let mut rdr = fastq::Reader::with_capacity(src, cap).set_policy(pol);
                 let mut set = fastq::RecordSet::default();
                 let mut max_recs = 0usize;
-                let mut i = 0usize;
                 let mut set_cap: Option<usize> = None;
-                loop {
-                    let (res, allocs, bytes) = measured(|| match rdr.read_record_set(&mut set) {
-                        Some(Ok(())) => {
-                            let mut s = 0usize;
-                            for r in &set {
-                                s += r.head().len() + r.seq().len() + r.qual().len();
+                let mut i = 0usize;
+                let mut call = 0usize;
+                while i < total {
+                    if use_set(call) {
+                        let (res, allocs, bytes) = measured(|| match rdr.read_record_set(&mut set) {
+                            Some(Ok(())) => {
+                                let mut s = 0usize;
+                                for r in &set {
+                                    s += r.head().len() + r.seq().len() + r.qual().len();
+                                }
+                                Some(s)
                             }
-                            Some(Ok(s))
+                            _ => None,
+                        });
+                        let s = match res {
+                            Some(s) => s,
+                            None => fail!(format!("{}/{}/read-failed", f, mode_name), "set read failed at record {}", i),
+                        };
+                        sink += s;
+                        let k = set.len();
+                        ensure!(k >= 1, "harness/c18", "harness: empty batch");
+                        let dominated = k <= max_recs;
+                        max_recs = max_recs.max(k);
+                        if warm(i) {
+                            if dominated {
+                                measured_calls += 1;
+                                ensure!(
+                                    allocs == 0,
+                                    format!("{}/{}/allocation-in-steady-state", f, mode_name),
+                                    "read_record_set() into a reused set ({} records starting at record {}, no more than earlier batches; capacity {}) performed {} heap allocation(s) ({} bytes)",
+                                    k,
+                                    i,
+                                    cap,
+                                    allocs,
+                                    bytes
+                                );
+                                if let Some(sc) = set_cap {
+                                    ensure!(set.buf_capacity() == sc, format!("{}/{}/set-buffer-capacity-changed", f, mode_name), "record set buffer capacity changed from {} to {}", sc, set.buf_capacity());
+                                }
+                            } else {
+                                skipped_nondominated += 1;
+                            }
+                            set_cap = Some(set.buf_capacity());
                         }
-                        Some(Err(_)) => Some(Err(())),
-                        None => None,
-                    });
-                    let s = match res {
-                        None => break,
-                        Some(Err(())) => fail!(format!("{}/sets/read-failed", f), "set read failed at record {}", i),
-                        Some(Ok(s)) => s,
-                    };
-                    sink += s;
-                    let k = set.len();
-                    let dominated = k <= max_recs;
-                    max_recs = max_recs.max(k);
-                    if i < m.recs.len() && warm(i) {
-                        if dominated {
+                        i += k;
+                    } else {
+                        let (res, allocs, bytes) = measured(|| match rdr.next() {
+                            Some(Ok(r)) => Some(r.head().len() + r.seq().len() + r.qual().len() + r.id_bytes().len()),
+                            _ => None,
+                        });
+                        match res {
+                            Some(s) => sink += s,
+                            None => fail!(format!("{}/{}/read-failed", f, mode_name), "record {} could not be read", i),
+                        }
+                        if warm(i) {
                             measured_calls += 1;
                             ensure!(
                                 allocs == 0,
-                                format!("{}/sets/allocation-in-steady-state", f),
-                                "read_record_set() into a reused set ({} records starting at record {}, no more than earlier batches; capacity {}) performed {} heap allocation(s) ({} bytes)",
-                                k,
+                                format!("{}/{}/allocation-in-steady-state", f, mode_name),
+                                "next() call for record {} (capacity {}) performed {} heap allocation(s) ({} bytes)",
                                 i,
                                 cap,
                                 allocs,
                                 bytes
                             );
-                            if let Some(sc) = set_cap {
-                                ensure!(set.buf_capacity() == sc, format!("{}/sets/set-buffer-capacity-changed", f), "record set buffer capacity changed from {} to {}", sc, set.buf_capacity());
-                            }
-                        } else {
-                            skipped_nondominated += 1;
                         }
-                        set_cap = Some(set.buf_capacity());
+                        i += 1;
                     }
-                    i += k;
+                    call += 1;
                 }
-                ensure!(i == m.recs.len(), format!("{}/sets/record-count", f), "{} records read, {} expected", i, m.recs.len());
+                ensure!(i == total, format!("{}/{}/record-count", f, mode_name), "{} records read, {} expected", i, total);
             }
         }
         std::hint::black_box(sink);
@@ -263,12 +273,7 @@ impl Prop for NoAlloc {
             cap,
             pol_log.borrow().iter().take(3).collect::<Vec<_>>()
         );
-        ctx.class(match (c.format, c.sets) {
-            (Format::Fasta, false) => "fasta next()",
-            (Format::Fastq, false) => "fastq next()",
-            (Format::Fasta, true) => "fasta reused record set",
-            (Format::Fastq, true) => "fastq reused record set",
-        });
+        ctx.class(&format!("{} {}", f, match mode_name { "next" => "next()", "sets" => "reused record set", _ => "mixed next() / read_record_set() on one reader" }));
         ctx.class_n("measured dominated calls", measured_calls);
         ctx.class_n("skipped non-dominated calls", skipped_nondominated);
         if measured_calls >= 20 {
@@ -278,7 +283,7 @@ impl Prop for NoAlloc {
     }
 }
 
-pub const RULE: &str = "cases = (format, 100..1500 records of uniform or mildly varying shape, LF/CRLF, capacity = (largest extent + 1) x factor 1..5 + slack, chunk script, mode next() / one reused RecordSet). Every call after a warm-up of max(8 records, 2 buffer capacities) whose observable shape is dominated by what the same reader / set already handled (lines per record, records per set, lines per slot) is measured with a counting global allocator (thread-local window around the call and the accessors head/seq/qual/seq_lines): it must perform 0 allocations; the record-set buffer capacity and the reader capacity (policy never asked) stay unchanged. Non-dominated calls are skipped and counted. Non-trivial = >= 20 measured dominated calls in the case. Distinct = hash(case).";
+pub const RULE: &str = "cases = (format, 100..1500 records of uniform or mildly varying shape, LF/CRLF, capacity = (largest extent + 1) x factor 1..5 + slack, chunk script, mode next() / one reused RecordSet / a generated mixture of both on one reader). Every call after a warm-up of max(8 records, 2 buffer capacities) whose observable shape is dominated by what the same reader / set already handled (lines per record, records per set, lines per slot) is measured with a counting global allocator (thread-local window around the call and the accessors head/seq/qual/seq_lines): it must perform 0 allocations; the record-set buffer capacity and the reader capacity (policy never asked) stay unchanged. Non-dominated calls are skipped and counted. Non-trivial = >= 20 measured dominated calls in the case. Distinct = hash(case).";
 
 pub fn run(tier: Tier) -> i32 {
     let mut run = Run::new("C18", tier, "exploration");
